@@ -5,6 +5,7 @@
 import Kvass.Pins.Coord
 import Kvass.Proofs.CoordLog
 import Kvass.Proofs.CoordFit
+import Kvass.Proofs.CoordBig
 
 namespace Kvass.Props.C04
 open Kvass Kvass.Coord Kvass.Spec
@@ -59,6 +60,30 @@ theorem C04_ok (swr : Swr) (sc : Sched) (inp : Input) (hok : C04.sizesOK inp = t
     C04.ok inp (Obs.ofOutcome (cycle swr sc inp)) = true :=
   ok_cycle swr sc inp hok
 
+/-- **Clause 3, for targets that are already assigned** ("a target that alone exceeds a limit …
+    never causes a scale-up").  All shards in sync, every unscraped target unplaceable, and every shard
+    at or above a limit holds a settled target (normal, healthy, scraped ≥ 3 times, reported by nobody
+    else) that alone exceeds that limit ⇒ relief gives up on those shards and no `ChangeScale` asks for
+    more shards than exist (or than the configured minimum).  Every input without negative sizes or
+    loads and with one status entry per hash, every `seriesWithRate` that does not round a limit
+    down, every relief order that covers the shards' maps. -/
+theorem C04_noScaleUpForAssignedTooBig (swr : Swr) (sc : Sched) (inp : Input) (hok : C04.sizesOK inp = true)
+    (hsw : C05.swrOK swr inp.opt = true) (hnd : NodupKeys inp) (hrt : C04.rtsOK inp = true)
+    (hcov : C04.schedCovers sc inp = true) :
+    C04.noScaleUpForAssignedTooBig inp (Obs.ofOutcome (cycle swr sc inp)) = true :=
+  noScaleUpAssigned_cycle swr sc inp (sizesOK_sound inp hok) (swrOK_sound swr inp.opt hsw) hnd
+    (rtsOK_sound inp hrt) (schedCovers_sound sc inp hcov)
+
+/-- **C04, all monitored clauses** (`Spec.C04.okAll` is what the engine evaluates on the real
+    coordinator) -/
+theorem C04_okAll (swr : Swr) (sc : Sched) (inp : Input) (hok : C04.sizesOK inp = true)
+    (hsw : C05.swrOK swr inp.opt = true) (hnd : NodupKeys inp) (hrt : C04.rtsOK inp = true)
+    (hcov : C04.schedCovers sc inp = true) :
+    C04.okAll inp (Obs.ofOutcome (cycle swr sc inp)) = true := by
+  unfold C04.okAll
+  rw [C04_ok swr sc inp hok, C04_noScaleUpForAssignedTooBig swr sc inp hok hsw hnd hrt hcov]
+  rfl
+
 /-- non-vacuity: the example input meets the hypothesis, and its outcome really hands new targets
     to shards (so `fits` has something to say) -/
 example : C04.sizesOK exInput = true := by decide
@@ -76,5 +101,22 @@ def exBig : Input :=
 
 example : C04.onlyTooBigUnscraped exBig = true ∧ exBig.opt.disableAlleviate = true := by decide
 example : (cycle exSwr { assign := [7] } exBig).scales = [1] := by decide
+
+/-- an assigned target that alone exceeds the process limit: the shard is over the limit, relief is
+    on and moves the small target away, gives up at the oversized one, and no shard is added -/
+def exHeld : Input :=
+  { opt := ⟨0, 100, 5, 0, false, false⟩, active := [7, 8], explore := [],
+    probes := [
+      { ready := true, status := some [(7, ⟨.good, 150, 150, .normal, 5⟩), (8, ⟨.good, 10, 10, .normal, 5⟩)],
+        rt1 := some (⟨160, 160, .none⟩, true), pushOk := true, rt2 := none, postOk := true },
+      { ready := true, status := some [], rt1 := some (⟨0, 0, .fresh⟩, true), pushOk := true, rt2 := none, postOk := true }] }
+
+def exHeldSc : Sched := { allevProc := [[8, 7], []], allevHead := [[8, 7], []] }
+
+example : (exHeld.probes.all inSync && C04.onlyTooBigUnscraped exHeld && C04.overloadOnlyByBig exHeld) = true ∧
+    C04.sizesOK exHeld = true ∧ C05.swrOK exSwr exHeld.opt = true ∧ C04.rtsOK exHeld = true ∧
+    C04.schedCovers exHeldSc exHeld = true := by decide
+example : NodupKeys exHeld := by unfold NodupKeys; decide
+example : (cycle exSwr exHeldSc exHeld).scales = [2] ∧ (cycle exSwr exHeldSc exHeld).log.map (·.kind) = [1] := by decide
 
 end Kvass.Props.C04
